@@ -228,10 +228,45 @@ class FormatToFString(ast.NodeTransformer):
         return node
 
 
+class UnpackToIndex(ast.NodeTransformer):
+    """a, b = value  ->  _u = value; a = _u[0]; b = _u[1]   (value a name, subscript, attribute or call other than zip/map/iter/generators)"""
+
+    def __init__(self):
+        self.k = 0
+
+    def _body(self, body):
+        out = []
+        for st in body:
+            if isinstance(st, ast.Assign) and len(st.targets) == 1 and isinstance(st.targets[0], ast.Tuple) and all(isinstance(t, ast.Name) for t in st.targets[0].elts) \
+                    and isinstance(st.value, (ast.Name, ast.Subscript, ast.Attribute, ast.Call)) and not \
+                    (isinstance(st.value, ast.Call) and isinstance(st.value.func, ast.Name) and st.value.func.id in ("zip", "map", "iter", "reversed", "enumerate", "filter")):
+                self.k += 1
+                tmp = "_u%d" % self.k
+                out.append(ast.Assign(targets=[ast.Name(id=tmp, ctx=ast.Store())], value=st.value))
+                for i, t in enumerate(st.targets[0].elts):
+                    out.append(ast.Assign(targets=[ast.Name(id=t.id, ctx=ast.Store())], value=ast.Subscript(value=ast.Name(id=tmp, ctx=ast.Load()), slice=ast.Constant(value=i), ctx=ast.Load())))
+            else:
+                out.append(st)
+        return out
+
+    def generic_visit(self, node):
+        super().generic_visit(node)
+        for f in ("body", "orelse", "finalbody"):
+            b = getattr(node, f, None)
+            if isinstance(b, list) and b and isinstance(b[0], ast.stmt):
+                setattr(node, f, self._body(b))
+        return node
+
+
+COMPOSED = ("keywordize", "rename", "commute", "invert-if", "yoda", "method-to-function", "else-after-return", "reverse-keywords", "fstring", "unpack-to-index")
+
+
 def transformed(kind):
+    """`kind` is one transformation, or "composed" = all of COMPOSED applied one after the other to every file"""
     root = pathlib.Path("/repo/verde")
     overlay = {}
-    if kind == "keywordize":
+    kinds = COMPOSED if kind == "composed" else (kind,)
+    if "keywordize" in kinds:
         from vstat.loader import Package
         pkg = Package(root)
     for p in root.rglob("*.py"):
@@ -239,36 +274,40 @@ def transformed(kind):
         if "tests" in rel.parts:
             continue
         tree = ast.parse(p.read_text())
-        if kind == "rename":
-            tree = ast.fix_missing_locations(Renamer().visit(tree))
-        if kind == "commute":
-            tree = ast.fix_missing_locations(Commute().visit(tree))
-        if kind == "invert-if":
-            tree = ast.fix_missing_locations(InvertIf().visit(tree))
-        if kind == "yoda":
-            tree = ast.fix_missing_locations(Yoda().visit(tree))
-        if kind == "method-to-function" and any(isinstance(n, ast.Import) and any(a.name == "numpy" and a.asname == "np" for a in n.names) for n in tree.body):
-            tree = ast.fix_missing_locations(MethodToFunction().visit(tree))
-        if kind == "else-after-return":
-            tree = ast.fix_missing_locations(ElseAfterReturn().visit(tree))
-        if kind == "reverse-keywords":
-            tree = ast.fix_missing_locations(ReverseKeywords().visit(tree))
-        if kind == "fstring":
-            tree = ast.fix_missing_locations(FormatToFString().visit(tree))
-        if kind == "hoist":
-            tree = ast.fix_missing_locations(Hoist().visit(tree))
-        if kind == "keywordize":
-            parts = list(rel.with_suffix("").parts)
-            if parts[-1] == "__init__":
-                parts = parts[:-1]
-            tree = ast.fix_missing_locations(Keywordize(pkg, pkg.modules[".".join(["verde"] + parts)]).visit(tree))
+        for k in kinds:
+            if k == "rename":
+                tree = Renamer().visit(tree)
+            if k == "commute":
+                tree = Commute().visit(tree)
+            if k == "invert-if":
+                tree = InvertIf().visit(tree)
+            if k == "yoda":
+                tree = Yoda().visit(tree)
+            if k == "method-to-function" and any(isinstance(n, ast.Import) and any(a.name == "numpy" and a.asname == "np" for a in n.names) for n in tree.body):
+                tree = MethodToFunction().visit(tree)
+            if k == "else-after-return":
+                tree = ElseAfterReturn().visit(tree)
+            if k == "reverse-keywords":
+                tree = ReverseKeywords().visit(tree)
+            if k == "fstring":
+                tree = FormatToFString().visit(tree)
+            if k == "unpack-to-index":
+                tree = UnpackToIndex().visit(tree)
+            if k == "hoist":
+                tree = Hoist().visit(tree)
+            if k == "keywordize":
+                parts = list(rel.with_suffix("").parts)
+                if parts[-1] == "__init__":
+                    parts = parts[:-1]
+                tree = Keywordize(pkg, pkg.modules[".".join(["verde"] + parts)]).visit(tree)
+            tree = ast.parse(ast.unparse(ast.fix_missing_locations(tree)))
         overlay[str(rel)] = ast.unparse(tree)
     return overlay
 
 
 def main():
     bad = 0
-    for kind in ("format", "rename", "commute", "keywordize", "hoist", "invert-if", "yoda", "method-to-function", "else-after-return", "reverse-keywords", "fstring"):
+    for kind in ("format", "rename", "commute", "keywordize", "hoist", "invert-if", "yoda", "method-to-function", "else-after-return", "reverse-keywords", "fstring", "unpack-to-index", "composed"):
         overlay = transformed(kind)
         for src in overlay.values():
             compile(src, "<variant>", "exec")
